@@ -96,7 +96,18 @@ def _parse_chunk(chunk):
             fails.append({'case': {'text': code}, 'stage': 'print', 'detail': f'printing the accepted tree raised {type(e).__name__}: {e}'})
             continue
         if out != code:
-            fails.append({'case': {'text': code}, 'stage': 'roundtrip', 'detail': f'accepted text prints back as {out!r}'})
+            # a positional argument after a keyword argument is accepted by the parser (the interpreter rejects it later), but the
+            # tree does not keep the relative order of the two kinds: tagged, because it is a recorded finding
+            from mesonbuild.ast import AstVisitor
+            flag = []
+
+            class OV(AstVisitor):
+                def visit_ArgumentNode(self, node):
+                    if node.incorrect_order():
+                        flag.append(1)
+                    super().visit_ArgumentNode(node)
+            tree.accept(OV())
+            fails.append({'case': {'text': code}, 'stage': 'roundtrip-kwarg-before-positional' if flag else 'roundtrip', 'detail': f'accepted text prints back as {out!r}'})
             continue
         for pr in check_tree(code, tree)[:1]:
             fails.append({'case': {'text': code}, 'stage': 'extent', 'detail': pr})
